@@ -60,6 +60,27 @@ struct Served {
   set: BTreeSet<usize>,
 }
 
+/// Harness-own helpers for lists written by other encoders.
+fn gzip(data: &[u8]) -> Vec<u8> {
+  use std::io::Write;
+  let mut e = flate2::write::GzEncoder::new(Vec::new(), flate2::Compression::default());
+  e.write_all(data).expect("in-memory write");
+  e.finish().expect("in-memory finish")
+}
+
+fn gunzip(data: &[u8]) -> Option<Vec<u8>> {
+  use std::io::Read;
+  let mut out = Vec::new();
+  flate2::read::MultiGzDecoder::new(data).read_to_end(&mut out).ok()?;
+  Some(out)
+}
+
+/// base64 in either alphabet, with or without padding.
+fn b64_any_decode(s: &str) -> Option<Vec<u8>> {
+  let t: String = s.trim_end_matches('=').chars().map(|c| match c { '+' => '-', '/' => '_', o => o }).collect();
+  super::b64url_decode(&t)
+}
+
 fn neighbourhood(i: usize, len: usize) -> Vec<usize> {
   let base = (i / 8) * 8;
   let lo = base.saturating_sub(8);
@@ -120,6 +141,11 @@ pub fn run(_params: &Params) {
   let mut creds: Vec<StatusList2021Credential> = Vec::new();
   let mut models: Vec<ListModel> = Vec::new();
   let mut served: Vec<Vec<Served>> = Vec::new();
+  // one host in four tells its lists apart by a query parameter only (same path)
+  let lists_by_query = ctx::choose(4) == 0;
+  if lists_by_query {
+    ctx::stat("probe.lists_told_apart_by_query_only");
+  }
   for i in 0..n_lists {
     let purpose = if (i + ctx::choose(2)) % 2 == 0 {
       StatusPurpose::Revocation
@@ -134,7 +160,11 @@ pub fn run(_params: &Params) {
     let Ok(list) = StatusList2021::new(entries) else { return };
     let len = list.len();
     // list ids that are string prefixes of one another (".../lists/1", ".../lists/12"): ids must match exactly
-    let url = format!("https://status.example/lists/1{}", "2".repeat(i));
+    let url = if lists_by_query {
+      format!("https://status.example/lists?list=1{}", "2".repeat(i))
+    } else {
+      format!("https://status.example/lists/1{}", "2".repeat(i))
+    };
     let built = StatusList2021CredentialBuilder::new(list)
       .purpose(purpose)
       .subject_id(Url::parse(if ctx::choose(2) == 0 { format!("{url}#list") } else { url.clone() }).unwrap())
@@ -561,6 +591,25 @@ pub fn run(_params: &Params) {
           }
         }
       }
+      // ... or compressed by a block encoder: a gzip FILE is a series of members (RFC 1952, 2.2); the same bits written as
+      // two members are the same list
+      let mut two_members = false;
+      if !respelled && ctx::choose(10) == 0 {
+        if let Ok(mut v) = serde_json::from_str::<serde_json::Value>(&served_json) {
+          let enc = v.get("credentialSubject").and_then(|c| c.get("encodedList")).and_then(|e| e.as_str()).map(str::to_owned);
+          if let Some(raw) = enc.as_deref().and_then(b64_any_decode).and_then(|z| gunzip(&z)) {
+            if raw.len() >= 2 {
+              let cut = 1 + ctx::choose(raw.len() - 1);
+              let mut file = gzip(&raw[..cut]);
+              file.extend_from_slice(&gzip(&raw[cut..]));
+              v["credentialSubject"]["encodedList"] = crate::core::b64::encode(file).into();
+              served_json = v.to_string();
+              two_members = true;
+              ctx::stat("fault.host.list_served_as_two_gzip_members");
+            }
+          }
+        }
+      }
       // ... or with its one credentialSubject as a one-element array (JSON-LD compaction with a set container): the VC
       // data model makes no difference between a value and a one-element set
       let mut subject_in_array = false;
@@ -577,7 +626,14 @@ pub fn run(_params: &Params) {
       let list_cred = match StatusList2021Credential::from_json(&served_json) {
         Ok(c) => c,
         Err(e) => {
-          if subject_in_array {
+          if two_members {
+            ctx::violation(
+              "C12",
+              "C12.reported_status",
+              "list-as-two-gzip-members/not-readable",
+              format!("the status list credential whose encodedList is a gzip file of two members is refused: {e}"),
+            );
+          } else if subject_in_array {
             ctx::violation(
               "C12",
               "C12.reported_status",
